@@ -31,6 +31,13 @@ RULE = ("histories of manager start-ups over one simulated device + one PIN file
         "PINs satisfy the policy (plus direct draws of generate_pin); any change attempt ends in "
         "HSM2ProtocolInterrupt; device PIN in {file PIN, default} at every quiescent point. "
         "distinct = (platform, start, injected outcome @ index, fs fault, crash point, depth)")
+RULE_ADDED = (
+              'Also: the PIN object is built the way manager_ledger.py / manager_sgx.py do '
+              '(UserOptionParser command line, PIN environment variable); histories with a running '
+              'manager (link fault, device back locked); SGX link faults in the shapes the dongle '
+              'layer classifies; an entropy source that biases every drawing primitive towards '
+              'digits ')
+RULE = RULE + " " + RULE_ADDED.strip()
 ASSUMPTIONS = [
     "simulated device keeps its PIN in a state file written before it acknowledges (its NVM)",
     "crash points are the event boundaries the harness sees (device and file events)",
@@ -169,7 +176,7 @@ def run_step(step, path, device_pin, devstate_path=None):
         lp.open = mon
         try:
             try:
-                pin = FileBasedPin(path, DEFAULT_PIN, step.get("force", False))
+                pin = load_pin_as_the_manager_does(platform, path, step.get("force", False))
             except PinError as e:
                 obs["outcome"] = "pin_error"
                 obs["exc"] = repr(e)
@@ -247,6 +254,31 @@ def running_phase(s, dev, step, platform):
         last = r
     # still answering requests (whatever the result code): the manager carried on
     return "served"
+
+
+def load_pin_as_the_manager_does(platform, path, force):
+    """the PIN object as manager_ledger.py / manager_sgx.py build it: command line parsed
+    by user.options.UserOptionParser (-P <file>, -X), default PIN from the environment"""
+    import importlib
+    from user.options import UserOptionParser
+    mod = importlib.import_module("manager_sgx" if platform == "sgx" else "manager_ledger")
+    argv = [mod.__name__ + ".py", "-P", path] + (["-X"] if force else [])
+    saved_argv, saved_pin = sys.argv, os.environ.get("PIN")
+    sys.argv = argv
+    os.environ["PIN"] = DEFAULT_PIN.decode()
+    try:
+        if platform == "sgx":
+            opts = UserOptionParser("mgr", with_pin=True, with_tcpconn=True, host_name="SGX",
+                                    default_tcpconn_port=7777).parse()
+        else:
+            opts = UserOptionParser("mgr", with_pin=True).parse()
+        return mod.load_pin(opts)
+    finally:
+        sys.argv = saved_argv
+        if saved_pin is None:
+            os.environ.pop("PIN", None)
+        else:
+            os.environ["PIN"] = saved_pin
 
 
 def new_pin_on_wire(apdus, platform):
